@@ -184,6 +184,7 @@ type Verifier struct {
 	E      *Env
 	Solver *SolverPool
 	Quick  bool
+	Replay map[string]*ReplaySpec
 }
 
 // VerifyFunc: Houdini over the auto-candidates, then the final pass and discharge of all obligations.
@@ -243,6 +244,34 @@ func (V *Verifier) VerifyFunc(key string, lockMode bool) *FuncResult {
 		return res
 	}
 	res.Obls = X.Obls
+	if rs := V.Replay[key]; rs != nil && X.TopFrame != nil {
+		// terms whose model values describe the failing entry state
+		var names []string
+		for n := range rs.Values {
+			names = append(names, n)
+		}
+		sort.Strings(names)
+		var terms []*Term
+		var okNames []string
+		for _, n := range names {
+			t := X.evalEntryExpr(rs.Values[n])
+			if t != nil {
+				terms = append(terms, t)
+				okNames = append(okNames, n)
+			}
+		}
+		var prefer []*Term
+		for _, p := range rs.Prefer {
+			if t := X.evalEntryExpr(p); t != nil && t.Sort == SBool {
+				prefer = append(prefer, t)
+			}
+		}
+		for _, o := range res.Obls {
+			if !o.WantSat {
+				o.Vals, o.ValNames, o.Prefer = terms, okNames, prefer
+			}
+		}
+	}
 	res.Trusted, res.Uncontr, res.Inlined, res.Spawns = X.UsedTrusted, X.Uncontracted, X.Inlined, X.Spawns
 	res.CallsiteHits = map[string]int{}
 	if fs != nil {
@@ -363,4 +392,25 @@ func (V *Verifier) VerifyLemma(name string) *FuncResult {
 	res.Trusted = X.UsedTrusted
 	nameObligations(res.Obls)
 	return res
+}
+
+// evalEntryExpr evaluates a spec expression over the entry state of the top-level function.
+func (X *Exec) evalEntryExpr(src string) (t *Term) {
+	defer func() {
+		if r := recover(); r != nil {
+			t = nil
+		}
+	}()
+	e, err := ParseSExpr(src)
+	if err != nil {
+		return nil
+	}
+	st := X.Entry.Clone()
+	sc := X.clauseCtx(X.TopFrame, st, nil, "replay value "+src)
+	sc.Fr = nil
+	sc.Old = X.Entry
+	for k, v := range X.TopFrame.ParamEntry {
+		sc.Vars[k] = v
+	}
+	return sc.eval(e).T
 }
